@@ -4,6 +4,10 @@ import json, os
 HERE = os.path.dirname(os.path.dirname(os.path.abspath(__file__)))
 
 CHECKS = {
+ 'C05': dict(level='exploration', ref='3/C05',
+   technique='seeded multi-parse / multi-file histories (simulated files with includes) of macro definitions and uses in every relative order, constants over shared dotted suffixes, finalize as an operation; model of the latest macro bindings as oracle at every call',
+   text='Macro definitions (literal, @producer(), %other, containers) and uses at any nesting are spread over several parse_config calls (skip_unknown False/True/list) and over included simulated files; every consumer call is compared with the model\'s latest bindings at call time, producers must run once per use, %constant must deliver the very object under every unambiguous abbreviation (ambiguous, invalid and duplicate definitions are errors), and finalize (root or under an active scope) must reject exactly the configurations with an unbound or unevaluated macro reference.',
+   note='Constants are defined before the text that uses them; %a/b unbound while %a is bound is judged only at finalize.'),
  'C04': dict(level='exploration', ref='3/C04',
    technique='seeded call histories with mutating / raising consumer bodies and per-producer call counters against a model of reference evaluation; store snapshots (query_parameter + config_str) compared before/after every operation',
    text='Bindings are value trees (list/tuple/dict to depth 3) over literals and @p, @s/p, @p(), @s/t/p(); consumers are called under ambient scopes with any subset of parameters overridden positionally or by keyword; inside the body every delivered object is checked against the expected tree (fresh producer result with the right scope at entry, registry\'s own callable for @p, a callable that runs under exactly its scope for @s/p), then mutated (and the body may raise); producer counters must rise by exactly the evaluated occurrences in Gin-supplied parameters, and query_parameter / config_str must be unchanged after every call and after mutating the result of get_bindings.',
